@@ -34,37 +34,34 @@ class Stats:
 STATS = Stats()
 
 
+def _run(solver, constraints, timeout_ms, want_model):
+    solver.set('timeout', int(timeout_ms))
+    for c in constraints:
+        solver.add(c)
+    try:
+        r = solver.check()
+    except z3.Z3Exception:
+        return 'unknown', None
+    model = solver.model() if (r == z3.sat and want_model) else None
+    return str(r), model
+
+
 def check_sat(constraints, timeout_ms=SOLVER_TIMEOUT_MS, want_model=False,
               backend='z3'):
-    """Returns ('unsat'|'sat'|'unknown', model or None)."""
+    """Returns ('unsat'|'sat'|'unknown', model or None).  Portfolio: default
+    solver with a short budget, then the nlsat tactic (nonlinear real
+    arithmetic), then the default solver with the full budget."""
     t0 = time.time()
-    s = z3.Solver()
-    s.set('timeout', int(timeout_ms))
-    for c in constraints:
-        s.add(c)
-    try:
-        r = s.check()
-    except z3.Z3Exception:
-        r = z3.unknown
-    res = str(r)
-    model = None
-    if r == z3.sat and want_model:
-        model = s.model()
-    if r == z3.unknown:
-        # second attempt: nlsat tactic for nonlinear real arithmetic
+    first = min(timeout_ms, 1500)
+    res, model = _run(z3.Solver(), constraints, first, want_model)
+    if res == 'unknown':
         try:
             t = z3.Then('simplify', 'purify-arith', 'qfnra-nlsat')
-            s2 = t.solver()
-            s2.set('timeout', int(timeout_ms))
-            for c in constraints:
-                s2.add(c)
-            r2 = s2.check()
-            if r2 != z3.unknown:
-                res = str(r2)
-                if r2 == z3.sat and want_model:
-                    model = s2.model()
+            res, model = _run(t.solver(), constraints, timeout_ms, want_model)
         except z3.Z3Exception:
-            pass
+            res = 'unknown'
+    if res == 'unknown' and timeout_ms > first:
+        res, model = _run(z3.Solver(), constraints, timeout_ms, want_model)
     STATS.add(backend, time.time() - t0)
     return res, model
 
@@ -94,12 +91,70 @@ class Atoms:
         v = self._fresh(kind, arg)
         self.table[key] = v
         if kind == 'exp':
+            # exact facts about the real exponential
             self.facts.append(v > 0)
+            self.facts.append(z3.Implies(arg > 0, v > 1))
+            self.facts.append(z3.Implies(arg < 0, v < 1))
+            self.facts.append(z3.Implies(arg == 0, v == 1))
             self._relate_exp(v, arg, ctx)
+        elif kind == 'log':
+            self._relate_congruent(v, kind, arg, ctx)
+            self.facts.append(z3.Implies(arg > 1, v > 0))
+            self.facts.append(z3.Implies(z3.And(arg > 0, arg < 1), v < 0))
+            self.facts.append(z3.Implies(arg == 1, v == 0))
         elif kind == 'sqrt':
             self.facts.append(v >= 0)
             self.facts.append(v * v == arg)
         return v
+
+    def _deep_consts(self, t):
+        """free non-atom constants of t, looking through atom arguments"""
+        out = set()
+        todo = [t]
+        seen = set()
+        while todo:
+            x = todo.pop()
+            for c in _free_consts(x):
+                if c in seen:
+                    continue
+                seen.add(c)
+                inf = self.info.get(c)
+                if inf is None:
+                    out.add(c)
+                elif inf[1] is not None:
+                    todo.append(inf[1])
+        return out
+
+    def _relate_congruent(self, v, kind, arg, ctx):
+        """f(a) == f(b) when a == b is provable (congruence between atoms
+        whose arguments are equal but syntactically different)"""
+        from . import terms
+        import random
+        pc = list(ctx.pc) if ctx is not None else []
+        rnd = random.Random(4321)
+        consts = self._deep_consts(arg)
+        for (k2, _k), w in list(self.table.items()):
+            if k2 != kind or w is v:
+                continue
+            warg = self.info[str(w)][1]
+            cs = consts | self._deep_consts(warg)
+            same = True
+            try:
+                for _ in range(2):
+                    env = {c: rnd.uniform(0.5, 2.0) for c in cs}
+                    a = terms.numeval(arg, env, self)
+                    b = terms.numeval(warg, env, self)
+                    if abs(a - b) > 1e-9 * max(1.0, abs(a)):
+                        same = False
+                        break
+            except terms.NumEvalError:
+                continue
+            if not same:
+                continue
+            r, _ = check_sat(pc + self.facts + [arg != warg], timeout_ms=2000)
+            if r == 'unsat':
+                self.facts.append(v == w)
+                return
 
     _QS = [Fraction(1), Fraction(-1), Fraction(2), Fraction(-2),
            Fraction(1, 2), Fraction(-1, 2), Fraction(3), Fraction(-3),
@@ -107,23 +162,65 @@ class Atoms:
            Fraction(4), Fraction(-4), Fraction(1, 4), Fraction(-1, 4)]
 
     def _relate_exp(self, v, arg, ctx):
+        """exp(arg) = exp(warg)^q for an earlier atom whose argument is a
+        rational multiple: candidate q found by numeric probing, confirmed
+        by the solver under the path condition"""
+        from . import terms
+        import random
         pc = list(ctx.pc) if ctx is not None else []
+        rnd = random.Random(12345)
+        consts = self._deep_consts(arg)
         for (kind, _k), w in list(self.table.items()):
             if kind != 'exp' or w is v:
                 continue
             warg = self.info[str(w)][1]
-            for q in self._QS:
-                r, _ = check_sat(pc + [arg != frac_to_z3(q) * warg],
-                                 timeout_ms=1000)
-                if r == 'unsat':
-                    # v == w ** q  with v, w > 0
-                    p, d = q.numerator, q.denominator
-                    lhs = _ipow(v, d)
-                    if p >= 0:
-                        self.facts.append(lhs == _ipow(w, p))
-                    else:
-                        self.facts.append(lhs * _ipow(w, -p) == 1)
-                    return
+            cs = consts | self._deep_consts(warg)
+            ratios = []
+            try:
+                for _ in range(2):
+                    env = {c: rnd.uniform(0.5, 2.0) for c in cs}
+                    a = terms.numeval(arg, env, self)
+                    b = terms.numeval(warg, env, self)
+                    if abs(b) < 1e-12:
+                        raise terms.NumEvalError('zero')
+                    ratios.append(a / b)
+            except terms.NumEvalError:
+                continue
+            if abs(ratios[0] - ratios[1]) > 1e-9 * max(1, abs(ratios[0])):
+                continue
+            q = None
+            for cand in self._QS:
+                if abs(float(cand) - ratios[0]) < 1e-9:
+                    q = cand
+            if q is None:
+                continue
+            r, _ = check_sat(pc + [arg != frac_to_z3(q) * warg],
+                             timeout_ms=2000)
+            if r == 'unsat':
+                # v == w ** q  with v, w > 0
+                p, d = q.numerator, q.denominator
+                lhs = _ipow(v, d)
+                if p >= 0:
+                    self.facts.append(lhs == _ipow(w, p))
+                else:
+                    self.facts.append(lhs * _ipow(w, -p) == 1)
+                return
+
+
+def _free_consts(t):
+    out = set()
+    seen = set()
+    stack = [t]
+    while stack:
+        x = stack.pop()
+        if x.get_id() in seen:
+            continue
+        seen.add(x.get_id())
+        if z3.is_app(x):
+            if x.num_args() == 0 and x.decl().kind() == z3.Z3_OP_UNINTERPRETED:
+                out.add(str(x))
+            stack.extend(x.children())
+    return out
 
 
 def _ipow(t, n):
